@@ -6,7 +6,7 @@
      File.AddChild's fragmented-init test and has a trex for every track id (built_fragmented, built_trex). *)
 From Coq Require Import String Ascii.
 From V.lib Require Import Base.
-From V.c01 Require Import C01Codec C01Model.
+From V.c19 Require Import C19BoxCodec C19BoxModel.
 From V.c19 Require Import C19Model C19Spec C19InvProofs C19RecModel C19TreeModel.
 
 (* ------------------------------------------------------------------ equality *)
